@@ -153,7 +153,11 @@ func NewChain(opts GenesisOpts) (*Chain, error) {
 	}
 	valPub := ed25519.GenPrivKeyFromSecret([]byte("verif-validator")).PubKey()
 	c.ValAddr = valPub.Address()
-	cp := simtestutil.DefaultConsensusParams
+	cpv := *simtestutil.DefaultConsensusParams
+	blk := *cpv.Block
+	blk.MaxGas = -1 // no block gas limit: tours fire thousands of transactions into one block
+	cpv.Block = &blk
+	cp := &cpv
 	initTime := blockTime(0)
 	if opts.InitialTime != 0 {
 		initTime = time.Unix(0, opts.InitialTime).UTC()
